@@ -31,6 +31,10 @@ package pc16
 //     so for such plans Start's verdict is not judged.
 //   * Checks.Delay == 0 is documented "defaults to 30 seconds" but the statement lists no such default: a submitted
 //     zero delay is not compared.
+//   * "a registered plugin that accepts its request" is judged on the request as Submit presents it to the plugin:
+//     Submit is the caller of ValidateReq and calls Defaults() on every request object that has such a method first
+//     (requestDefaults precedes Validate). This is caller behaviour, not statement text; the reference applies
+//     Defaults() to a *copy* of the request (never to the submitted object) before asking the plugin.
 
 import (
 	"bytes"
@@ -71,6 +75,10 @@ type ActionShape struct {
 	Retries int   // may be negative (documented default: < 0 -> 0)
 	HasKey  bool
 	Arg     string
+	// Dflt selects the request flavour: 0 = plain plugin (ReqCheck / ReqWork value); 1..3 = the plugin whose request
+	// is a *DReq with Defaults(): 1 = Mode left at its zero value (valid only once defaulted), 2 = Mode "manual",
+	// 3 = Mode "auto" spelled out.
+	Dflt int
 }
 
 type ChecksShape struct {
@@ -157,6 +165,7 @@ func genAction(t *rapid.T, label string) ActionShape {
 		Retries: rapid.IntRange(-3, 3).Draw(t, label+".retries"),
 		HasKey:  rapid.Bool().Draw(t, label+".key"),
 		Arg:     rapid.SampledFrom([]string{"", "a", "x y", "日本"}).Draw(t, label+".arg"),
+		Dflt:    rapid.SampledFrom([]int{0, 0, 0, 0, 0, 0, 0, 0, 0, 1, 2, 3}).Draw(t, label+".dflt"),
 	}
 }
 
@@ -285,10 +294,17 @@ func (b *builder) action(a ActionShape, check bool) *workflow.Action {
 		Timeout: time.Duration(a.Timeout),
 		Retries: a.Retries,
 	}
-	if check {
+	switch {
+	case a.Dflt >= 1 && a.Dflt <= 3:
+		out.Plugin = dWorkPlugName
+		if check {
+			out.Plugin = dCheckPlugName
+		}
+		out.Req = &DReq{Arg: a.Arg, Mode: [...]string{"", "", "manual", "auto"}[a.Dflt]}
+	case check:
 		out.Plugin = checkPlugName
 		out.Req = ReqCheck{Arg: a.Arg}
-	} else {
+	default:
 		out.Plugin = workPlugName
 		out.Req = ReqWork{Arg: a.Arg, N: a.Retries}
 	}
@@ -518,6 +534,7 @@ var (
 	unknownPlugs  = []string{"verif/pc16.nope", "VERIF/PC16.CHECK", checkPlugName + " ", " " + workPlugName, "check"}
 	blankPlugs    = []string{"", " ", "\t\n"}
 	badVersions   = []byte{4, 1, 6, 8, 0, 15}
+	badModes      = []string{"bogus", "AUTO", " ", "auto "}
 	someTime      = time.Unix(1_700_000_000, 0).UTC()
 )
 
@@ -706,27 +723,40 @@ func applyMutation(p *workflow.Plan, m Mutation, salt uint32, k int) string {
 		if !ok {
 			return ""
 		}
-		switch v % 6 {
+		d, chk := isDPlug(n.action.Plugin), isCheckPlug(n.action.Plugin)
+		switch v % 7 {
 		case 0:
 			n.action.Req = nil
 		case 1:
 			n.action.Req = "a string"
 		case 2:
 			n.action.Req = ReqOther{X: v}
-		case 3: // pointer to the right type: ValidateReq wants the value type
-			if n.action.Plugin == checkPlugName {
+		case 3: // right struct, wrong indirection: pointer where the value is wanted / value where the pointer is wanted
+			switch {
+			case d:
+				n.action.Req = DReq{Arg: "value", Mode: "manual"}
+			case chk:
 				n.action.Req = &ReqCheck{Arg: "ptr"}
-			} else {
+			default:
 				n.action.Req = &ReqWork{Arg: "ptr"}
 			}
-		case 4: // the other plugin's request type
-			if n.action.Plugin == checkPlugName {
+		case 4: // the request type of the plugin of the other kind
+			if chk {
 				n.action.Req = ReqWork{Arg: "swapped"}
 			} else {
 				n.action.Req = ReqCheck{Arg: "swapped"}
 			}
 		case 5:
 			n.action.Req = 42
+		case 6: // the request type of the other family (with / without Defaults)
+			switch {
+			case !d:
+				n.action.Req = &DReq{Arg: "other-family"} // Submit will call Defaults() on it; still the wrong type
+			case chk:
+				n.action.Req = ReqCheck{Arg: "other-family"}
+			default:
+				n.action.Req = ReqWork{Arg: "other-family"}
+			}
 		}
 		return n.kindLabel()
 	case "rejected-req":
@@ -741,10 +771,19 @@ func applyMutation(p *workflow.Plan, m Mutation, salt uint32, k int) string {
 		case ReqWork:
 			r.Reject = true
 			n.action.Req = r
+		case *DReq: // a Mode that is invalid with or without Defaults()
+			c := DReq{Mode: badModes[v%len(badModes)]}
+			if r != nil {
+				c.Arg = r.Arg
+			}
+			n.action.Req = &c
 		default:
-			if n.action.Plugin == checkPlugName {
+			switch {
+			case isDPlug(n.action.Plugin):
+				n.action.Req = &DReq{Mode: badModes[v%len(badModes)]}
+			case isCheckPlug(n.action.Plugin):
 				n.action.Req = ReqCheck{Reject: true}
-			} else {
+			default:
 				n.action.Req = ReqWork{Reject: true}
 			}
 		}
@@ -761,16 +800,26 @@ func applyMutation(p *workflow.Plan, m Mutation, salt uint32, k int) string {
 		if !ok {
 			return ""
 		}
-		n.action.Plugin = workPlugName
-		n.action.Req = ReqWork{Arg: "work-in-checks", N: v}
+		if v%2 == 1 { // the non-check plugin whose request relies on Defaults()
+			n.action.Plugin = dWorkPlugName
+			n.action.Req = &DReq{Arg: "dwork-in-checks"}
+		} else {
+			n.action.Plugin = workPlugName
+			n.action.Req = ReqWork{Arg: "work-in-checks", N: v}
+		}
 		return n.kindLabel()
 	case "check-in-seq":
 		n, ok := pick(func(n node) bool { return n.kind == "action" && !n.inChecks })
 		if !ok {
 			return ""
 		}
-		n.action.Plugin = checkPlugName
-		n.action.Req = ReqCheck{Arg: "check-in-seq"}
+		if v%2 == 1 {
+			n.action.Plugin = dCheckPlugName
+			n.action.Req = &DReq{Arg: "dcheck-in-seq", Mode: "manual"}
+		} else {
+			n.action.Plugin = checkPlugName
+			n.action.Req = ReqCheck{Arg: "check-in-seq"}
+		}
 		return n.kindLabel()
 	}
 	return ""
@@ -803,6 +852,9 @@ type refVerdict struct {
 	nonCheckInChecks bool
 	// checkInSeq: a check plugin inside a sequence (Start's verdict is then not judged).
 	checkInSeq bool
+	// requests with Defaults() given to the plugins that take them: Mode left zero (acceptable only once defaulted),
+	// spelled out and valid, invalid whatever Defaults() does.
+	dreqZero, dreqSpelled, dreqInvalid int
 
 	keys map[uuid.UUID]bool
 	reg  map[string]plugins.Plugin
@@ -853,6 +905,18 @@ func (r *refVerdict) key(k uuid.UUID) {
 	r.keys[k] = true
 }
 
+// presented returns the request as Submit presents it to the plugin: Submit calls Defaults() on every request object
+// that has such a method before it validates the plan (see the header). The submitted object itself is never touched
+// here — a copy is defaulted — so the reference cannot do Submit's work for it.
+func presented(req any) any {
+	if d, ok := req.(*DReq); ok && d != nil {
+		c := *d
+		c.Defaults()
+		return &c
+	}
+	return req
+}
+
 func (r *refVerdict) action(a *workflow.Action, inChecks bool) {
 	if a == nil {
 		r.nilEntry = true
@@ -874,8 +938,18 @@ func (r *refVerdict) action(a *workflow.Action, inChecks bool) {
 	if plug == nil {
 		r.bad("plugin-unknown")
 	} else {
-		if plug.ValidateReq(a.Req) != nil {
+		if plug.ValidateReq(presented(a.Req)) != nil {
 			r.bad("req-rejected")
+		}
+		if d, ok := a.Req.(*DReq); ok && d != nil && isDPlug(a.Plugin) {
+			switch {
+			case d.Mode == "":
+				r.dreqZero++
+			case validMode(d.Mode):
+				r.dreqSpelled++
+			default:
+				r.dreqInvalid++
+			}
 		}
 		if inChecks && !plug.IsCheck() {
 			r.nonCheckInChecks = true
@@ -942,8 +1016,10 @@ func (r *refVerdict) block(b *workflow.Block) {
 
 func reference(p *workflow.Plan) *refVerdict {
 	r := &refVerdict{keys: map[uuid.UUID]bool{}, reg: map[string]plugins.Plugin{
-		checkPlugName: &plug{name: checkPlugName, check: true},
-		workPlugName:  &plug{name: workPlugName, check: false},
+		checkPlugName:  &plug{name: checkPlugName, check: true},
+		workPlugName:   &plug{name: workPlugName, check: false},
+		dCheckPlugName: &plug{name: dCheckPlugName, check: true, dflt: true},
+		dWorkPlugName:  &plug{name: dWorkPlugName, check: false, dflt: true},
 	}}
 	r.names(p.Name, p.Descr)
 	r.owned(p.ID, p.State)
@@ -1015,7 +1091,9 @@ type snapPlan struct {
 func snapActions(as []*workflow.Action) []snapAction {
 	var out []snapAction
 	for _, a := range as {
-		out = append(out, snapAction{Name: a.Name, Descr: a.Descr, Plugin: a.Plugin, Timeout: a.Timeout, Retries: a.Retries, Key: a.Key, Req: a.Req})
+		// Req: the request as presented to the plugin = the submitted one with its own Defaults() applied (a copy:
+		// Submit mutates the submitted object in place)
+		out = append(out, snapAction{Name: a.Name, Descr: a.Descr, Plugin: a.Plugin, Timeout: a.Timeout, Retries: a.Retries, Key: a.Key, Req: presented(a.Req)})
 	}
 	return out
 }
@@ -1093,7 +1171,7 @@ func (ac *acceptedChecker) actions(path string, got []*workflow.Action, want []s
 			ac.res.Fail("C16/accepted:definition", "%s: stored name/descr/plugin/key %q/%q/%q/%s, submitted %q/%q/%q/%s", ap, a.Name, a.Descr, a.Plugin, a.Key, w.Name, w.Descr, w.Plugin, w.Key)
 		}
 		if !reflect.DeepEqual(a.Req, w.Req) {
-			ac.res.Fail("C16/accepted:definition-req", "%s: stored request %#v, submitted %#v", ap, a.Req, w.Req)
+			ac.res.Fail("C16/accepted:definition-req", "%s: stored request %s, submitted (with its Defaults() applied) %s", ap, showReq(a.Req), showReq(w.Req))
 		}
 		// "(zero meaning the default)": the documented default is 30 seconds
 		wantTimeout := w.Timeout
@@ -1112,6 +1190,13 @@ func (ac *acceptedChecker) actions(path string, got []*workflow.Action, want []s
 			ac.res.Fail("C16/accepted:retries", "%s: stored retries %d, submitted %d (want %d)", ap, a.Retries, w.Retries, wantRetries)
 		}
 	}
+}
+
+func showReq(r any) string {
+	if d, ok := r.(*DReq); ok && d != nil {
+		return fmt.Sprintf("&%#v", *d)
+	}
+	return fmt.Sprintf("%#v", r)
 }
 
 func (ac *acceptedChecker) groups(path string, got [5]*workflow.Checks, want [5]*snapChecks) {
@@ -1252,6 +1337,12 @@ func checkSubmit(c SubmitCase) (res vprop.Result) {
 	if err := reg.Register(&plug{name: workPlugName, check: false, execs: execs}); err != nil {
 		panic(err)
 	}
+	if err := reg.Register(&plug{name: dCheckPlugName, check: true, dflt: true, execs: execs}); err != nil {
+		panic(err)
+	}
+	if err := reg.Register(&plug{name: dWorkPlugName, check: false, dflt: true, execs: execs}); err != nil {
+		panic(err)
+	}
 	vault, err := sqlite.New(ctx, "", reg, sqlite.WithInMemory())
 	if err != nil {
 		res.Skip = true
@@ -1292,6 +1383,19 @@ func checkSubmit(c SubmitCase) (res vprop.Result) {
 	var snap *snapPlan
 	if !ref.nilEntry {
 		snap = snapshot(plan)
+	}
+	if ref.dreqZero > 0 {
+		res.Label("dreq:zero")
+		if wellFormed {
+			// the class that needs Submit to default requests before it validates them
+			res.Label("dreq:zero:well-formed")
+		}
+	}
+	if ref.dreqSpelled > 0 {
+		res.Label("dreq:spelled-out")
+	}
+	if ref.dreqInvalid > 0 {
+		res.Label("dreq:invalid")
 	}
 	if wellFormed {
 		res.Label("ref:well-formed")
@@ -1457,7 +1561,6 @@ func TestC16(t *testing.T) {
 		Journal: true,
 	})
 }
-
 
 // FuzzC16 is the byte-driven arm (thorough tier): the same generator and oracle driven by go's native coverage-guided
 // fuzzer through rapid.MakeFuzz.
